@@ -11,7 +11,7 @@ func init() {
 	register("C10", propMeta{
 		Explanation: "Decides lock discipline: (R1) guarded-by — every access to a field of the table is made under its mutex on every call path (type-level locksets, entry lockset = intersection over all production call sites, constructors exempt for their fresh object, goroutines inherit a lock only when joined by WaitGroup.Wait before it is released); " +
 			"(R2) stateful hashers stored in struct fields are used only under the exclusive lock; (R3) every Lock/RLock is released on every exit; (R4) the store write that persists an insertion happens under a lock every query path also takes; (R5) goroutines spawned on the insertion path are joined; (R6) guarded buffers never escape by reference (cache reads return copies).",
-		Added:       "Also (R7) no method re-acquires its receiver's lock through another method of the same receiver; (R8) HTTP handlers write only to their own locals. Third round: (R9) after writing an error answer a query handler returns.",
+		Added:       "Also (R7) no method re-acquires its receiver's lock through another method of the same receiver; (R8) HTTP handlers write only to their own locals. Third round: (R9) after writing an error answer a query handler returns. Fifth round: RaftNode.state is confined to the FSM goroutine; response bodies never alias a recycled buffer.",
 		Assumptions: []string{"mutexes are identified by the struct type that owns them (one balloon, one hyper tree, one batch cache per node)"},
 		Declined:    "'never mixes state' as a linearizability statement over all interleavings; exploration under the race detector; races inside third-party code.",
 	}, runC10)
